@@ -123,7 +123,7 @@ func ruleOwnCloseForwards(c *Ctx, r *R) {
 				if isL, _ := fieldLoadOf(cc.Value, wf.field); isL {
 					return ss(1), true
 				}
-			} else if cal := staticCallee(cc); cal != nil && cal.Name() == "Close" && len(cc.Args) > 0 {
+			} else if cal := staticCallee(cc); cal != nil && fname(cal) == "Close" && len(cc.Args) > 0 {
 				// concrete-typed field: static method call with the field as receiver
 				if isL, _ := fieldLoadOf(cc.Args[0], wf.field); isL {
 					return ss(1), true
@@ -253,7 +253,7 @@ func ruleOwnFieldDiscipline(c *Ctx, r *R) {
 					if cc.IsInvoke() {
 						recv, mname = cc.Value, cc.Method.Name()
 					} else if cal := staticCallee(cc); cal != nil && cal.Signature.Recv() != nil && len(cc.Args) > 0 {
-						recv, mname = cc.Args[0], cal.Name()
+						recv, mname = cc.Args[0], fname(cal)
 					}
 					if recv == nil {
 						return 0, false
